@@ -50,12 +50,12 @@ PROPS = {
         "engine": "dsim",
         "level": "fault_enumeration",
         "technique": "deterministic simulation with fault injection (crash-point enumeration over the response byte stream + seeded schedules)",
-        "rule": "even run indices enumerate the crash-point grid of a scripted exchange (4 held requests on one connection, 1 node, pool 1): every cut offset 0..200 of the response byte stream x {FIN, RST, garbage header at a frame boundary, silent stall}, under seeded schedules/fragmentation; odd run indices sample 1..3 nodes x 0/2/3 shards x pool 1..3 x 1..32 in-flight requests (idempotent or not) x 1..3 fault rounds x {FIN, RST, garbage header, bad version, unsolicited stream id, stall} x offset x victim (pool or control connection) x timing relative to writes, keepalive interval/timeout, request timeout on/off, retry policy, and (1 in 2) a background task that keeps sending a request every 100..900 ms on the same pools during the whole fault phase (so that a stall meets a connection that is in use, not idle). Non-trivial = at least one fault was injected on a live connection. Distinct = distinct (poll-sequence hash, event-log hash).",
+        "rule": "even run indices enumerate the crash-point grid of a scripted exchange (4 held requests on one connection, 1 node, pool 1): every cut offset 0..200 of the response byte stream x {FIN, RST, garbage header at a frame boundary, silent stall}, under seeded schedules/fragmentation; odd run indices sample 1..3 nodes x 0/2/3 shards x pool 1..3 x 1..32 in-flight requests (idempotent or not) x 1..3 fault rounds x {FIN, RST, garbage header, bad version, unsolicited stream id, stall, partition of the victim's whole node (all its connections go silent, new connection attempts hang until the connect timeout; heals when faults stop)} x offset x victim (pool or control connection) x timing relative to writes, keepalive interval/timeout, request timeout on/off, retry policy, and (1 in 2) a background task that keeps sending a request every 100..900 ms on the same pools during the whole fault phase (so that a stall meets a connection that is in use, not idle). Non-trivial = at least one fault was injected on a live connection. Distinct = distinct (poll-sequence hash, event-log hash).",
         "assumptions": COMMON_ASSUMPTIONS + [
             "oracles: (a) every call outstanding at fault time returns within hold + keepalive interval + timeout (+ the same again for silent faults) + 20 s; (b) every Ok result carries its own marker; (c) a non-idempotent request is received at most once; (d) keepalive interval + timeout + 15 s after faults stop, 8 fresh idempotent requests all succeed; (e) a request outstanding on a connection that was killed or poisoned can only succeed through a second attempt",
             "garbage is injected at frame boundaries only: a corruption inside a frame body that keeps the framing intact is undetectable by any client and is not part of the property's fault list",
         ],
-        "expected_probes": ["Fin", "Rst", "Garbage", "Stall", "cut_fired", "doomed_failed"],
+        "expected_probes": ["Fin", "Rst", "Garbage", "Stall", "cut_fired", "doomed_failed", "partition", "ConnectBlackhole"],
     },
     "C08": {
         "engine": "dsim",
